@@ -32,6 +32,7 @@ type PropConfig struct {
 	ReadOnly map[string][]string `json:"frame_read_only"`
 	AllowSync []string `json:"frame_allow_sync"`
 	FreshResults []string `json:"frame_fresh_results"`
+	Category string `json:"category"` // manifest level category; "other" = proved core + labelled bounded stand-in
 }
 
 type KnownFinding struct {
@@ -513,6 +514,20 @@ func cmdCheck(args []string) int {
 		"functions_under_contract": ulist, "per_obligation": perObl, "discharged_by": solverBy,
 		"solver_seconds": round3(sv.SolverS), "smoke_checks": len(smokes), "known_findings_hit": knownHits,
 		"bounded": bounded, "samples": samples, "decides": pc.Decides, "not_decided": pc.NotDecided,
+	}
+	if pc.Category != "" && pc.Category != "proof" {
+		// mostly-bounded properties: the level of the evidence follows the manifest category
+		ev.Level = pc.Category
+		cases := 0
+		var bnames []string
+		for _, b := range bounded {
+			if c, ok := b["cases"].(int); ok {
+				cases += c
+			}
+			bnames = append(bnames, fmt.Sprint(b["function"]))
+		}
+		ev.Coverage["explanation"] = fmt.Sprintf("Two parts. (1) Deductive core: %d proof obligations generated from the current source of the functions under contract (functions_under_contract), %d discharged by the solvers in this run (per_obligation). (2) Labelled bounded stand-in(s) %s: %d cases enumerated and compared with a reference in this run (bounds in coverage.bounded). The clauses of the property decided only by (2) are named in the manifest level text; they are bounded, not proved.", counted, discharged, strings.Join(bnames, ", "), cases)
+		ev.Coverage["evaluations"] = cases
 	}
 	os.MkdirAll(filepath.Join(*verif, "evidence"), 0o755)
 	data, _ := json.MarshalIndent(ev, "", " ")
